@@ -203,6 +203,7 @@ Section World.
         change (v_ulocked (vs_of s)) with (ulocked (ua s)) in Hr. unfold ulocked in Hr.
         destruct (upass (ua s)); [reflexivity|discriminate].
     - (* Forward *)
+      change spec_max_frame with max_frame.
       pose proof (forward_any info script now s raw len rlen) as Ha. rewrite Hstep in Ha.
       destruct Ha as [Hm [Hi Ha]]. cbn [o_mem o_ids o_rawlog o_reqno obs_of]. rewrite Hm, Hi, !listN_eqb_refl. cbn [andb].
       destruct (max_frame <? len)%N eqn:Hlen.
